@@ -49,6 +49,21 @@ def parse_expr(text: str) -> Optional[ast.AST]:
         return None
 
 
+def clone(n: Any) -> Any:
+    """A structural copy of an AST: fields only.  (copy.deepcopy also follows whatever attributes have been attached to the nodes - and
+    the expression-context objects Load()/Store() are shared by all trees of the process, so an attribute that some code attached to them,
+    such as pydoctor's `parent`, would drag a whole foreign tree into every copy.)"""
+    if isinstance(n, ast.AST):
+        new = type(n)(**{f: clone(getattr(n, f)) for f in n._fields if hasattr(n, f)})
+        for a in ('lineno', 'col_offset', 'end_lineno', 'end_col_offset'):
+            if hasattr(n, a):
+                setattr(new, a, getattr(n, a))
+        return new
+    if isinstance(n, list):
+        return [clone(x) for x in n]
+    return n
+
+
 def same(source_expr: ast.AST, shown_text: str) -> Optional[str]:
     """None if the shown text denotes source_expr, else an explanation."""
     shown = parse_expr(shown_text)
@@ -57,8 +72,7 @@ def same(source_expr: ast.AST, shown_text: str) -> Optional[str]:
         shown = parse_expr('(\n' + shown_text + '\n)')
     if shown is None:
         return 'shown text is not a Python expression'
-    import copy
-    a = norm_dump(copy.deepcopy(source_expr))
+    a = norm_dump(clone(source_expr))
     b = norm_dump(shown)
     if a == b:
         return None
